@@ -5,7 +5,7 @@ and does not end in CR (`Clean`), so that `bufio.ScanLines` gives the lines back
 import Proofs.Lemmas.C01Bytes
 
 namespace C01
-open Fmt Spec.Format Spec.RoundTrip
+open Fmt Spec.RoundTrip
 
 theorem hasByte_append (a b : Bytes) (c : UInt8) :
     Bytes.hasByte (a ++ b) c = (Bytes.hasByte a c || Bytes.hasByte b c) := by
@@ -96,7 +96,7 @@ theorem clean_of_last {l : Bytes} (h10 : Bytes.hasByte l 10 = false)
 theorem tokenOK_noSpace {uc : UC} {t : Bytes} (h : tokenOK uc t = true) : noAsciiSpace t = true :=
   (tokenOK_split h).1
 
-theorem clean_benchLine (O : Oracles) (P : WParams) (hnum : NumOK O P) (r : Res)
+theorem clean_benchLine (O : Oracles) (P : WParams) (r : Res) (hnum : ResNumOK O P r)
     (hname : tokenOK O.uc r.name = true)
     (hunits : ∀ v ∈ r.values, v.written.2 ≠ [] ∧ tokenOK O.uc v.written.2 = true) :
     Clean (benchLine P r) := by
@@ -106,7 +106,7 @@ theorem clean_benchLine (O : Oracles) (P : WParams) (hnum : NumOK O P) (r : Res)
     rcases ht with ht | ⟨v, hv', ht⟩
     · subst ht; exact ⟨(fmtInt_token O.uc r.iters).1, tokenOK_noSpace (fmtInt_token O.uc r.iters).2⟩
     · rcases ht with ht | ht
-      · subst ht; exact ⟨(hnum.numTok _).1, tokenOK_noSpace (hnum.numTok _).2⟩
+      · subst ht; exact ⟨(hnum.2 v hv').2.1, tokenOK_noSpace (hnum.2 v hv').2.2⟩
       · subst ht; exact ⟨(hunits v hv').1, tokenOK_noSpace (hunits v hv').2⟩
   obtain ⟨c, hc, hs⟩ := joinSp_last _ (by simp) htoks
   have hj := joinSp_noLF _ (fun t ht => (htoks t ht).2)
@@ -297,14 +297,16 @@ theorem cfgClean_of_ok (O : Oracles) (c : Cfg) (h : cfgOKnoCR O c = true)
     simp only [hf', Bool.false_eq_true, ↓reduceIte, internalKeyOK, Bool.and_eq_true, Bool.not_eq_true'] at h
     exact ⟨h.1, fun hh => absurd hh (by simp [hf'])⟩
 
-theorem history_clean (O : Oracles) (P : WParams) (hnum : NumOK O P) :
-    ∀ (h : List Rec) (w : WState), KeysClean w → (∀ r ∈ h, recOKnoCR O r = true) → hasCRValue h = false →
+theorem history_clean (O : Oracles) (P : WParams) :
+    ∀ (h : List Rec) (w : WState), NumOKFor O P h → KeysClean w → (∀ r ∈ h, recOKnoCR O r = true) →
+      hasCRValue h = false →
       ∀ l ∈ Writer.writeFrom P w h, Clean l := by
   intro h
   induction h with
-  | nil => intro w _ _ _ l hl; simp [Writer.writeFrom] at hl
+  | nil => intro w _ _ _ _ l hl; simp [Writer.writeFrom] at hl
   | cons rec rest ih =>
-    intro w hk hok hcr l hl
+    intro w hnum hk hok hcr l hl
+    have hnum' : NumOKFor O P rest := fun r hr => hnum r (List.mem_cons_of_mem _ hr)
     have hrest : ∀ r ∈ rest, recOKnoCR O r = true := fun r hr => hok r (List.mem_cons_of_mem _ hr)
     have hrec := hok rec List.mem_cons_self
     simp only [hasCRValue, List.any_cons, Bool.or_eq_false_iff] at hcr
@@ -313,12 +315,12 @@ theorem history_clean (O : Oracles) (P : WParams) (hnum : NumOK O P) :
     cases rec with
     | err e =>
       simp only [Writer.write, List.not_mem_nil, false_or] at hl
-      exact ih w hk hrest hcr' l hl
+      exact ih w hnum' hk hrest hcr' l hl
     | unit u =>
       simp only [Writer.write, List.mem_singleton] at hl
       rcases hl with hl | hl
       · rw [hl]; exact clean_unitLine O u hrec
-      · exact ih w hk hrest hcr' l hl
+      · exact ih w hnum' hk hrest hcr' l hl
     | result r =>
       simp only [recOKnoCR, resOKnoCR, Bool.and_eq_true, List.all_eq_true, Bool.not_eq_true'] at hrec
       obtain ⟨⟨⟨⟨_, hc⟩, _⟩, hn⟩, hu⟩ := hrec
@@ -345,8 +347,8 @@ theorem history_clean (O : Oracles) (P : WParams) (hnum : NumOK O P) :
       · simp only [Writer.write, writeResult, List.mem_append, List.mem_singleton] at hl
         rcases hl with hl | hl
         · exact hblock.2 l hl
-        · rw [hl]; exact clean_benchLine O P hnum r hn hunits
-      · refine ih _ ?_ hrest hcr' l hl
+        · rw [hl]; exact clean_benchLine O P r (hnum r List.mem_cons_self) hn hunits
+      · refine ih _ hnum' ?_ hrest hcr' l hl
         simp only [Writer.write, writeResult]
         exact hblock.1
 
